@@ -143,3 +143,38 @@ Proof.
   split; [lra|]. split; [lra|]. rewrite (Rabs_right (1 / 2)) by lra.
   replace (1 / 2 - 1 - 0) with (- (1 / 2)) by lra. rewrite Rabs_Ropp, Rabs_right by lra. lra.
 Qed.
+
+(* Trefethen polynomial maps over any base rule with nodes in [-1,1] *)
+Lemma subst_trefethen_poly_thm d (bp bw : nat -> R) k : (d = 1 \/ d = 5 \/ d = 9)%nat ->
+  exists phi dphi : R -> R,
+    tref_pts d bp k = phi (bp k) /\ tref_wts d bp bw k = dphi (bp k) * bw k /\
+    (forall x, is_derive phi x (dphi x)) /\ (forall x, 0 < dphi x) /\
+    (forall a b, a < b -> phi a < phi b) /\ phi (-1) = -1 /\ phi 1 = 1 /\
+    (forall x, -1 <= x <= 1 -> -1 <= phi x <= 1).
+Proof.
+  intros Hd. exists (tref_map d), (tref_dmap d). destruct (tref_model d bp bw k Hd) as [E1 E2].
+  split; [exact E1|]. split; [exact E2|]. split; [apply tref_map_deriv|]. split; [apply tref_dmap_pos|].
+  split; [apply tref_map_incr|].
+  split; [|split; [|apply tref_map_range]].
+  - destruct Hd as [ -> | [ -> | -> ] ]; unfold tref_map; simpl; [reflexivity|apply g2_ends|apply g3_ends].
+  - destruct Hd as [ -> | [ -> | -> ] ]; unfold tref_map; simpl; [reflexivity|apply g2_ends|apply g3_ends].
+Qed.
+
+Lemma tref_ascending d (bp : nat -> R) k : (d = 1 \/ d = 5 \/ d = 9)%nat ->
+  bp k < bp (S k) -> tref_pts d bp k < tref_pts d bp (S k).
+Proof.
+  intros Hd H. destruct (tref_model d bp bp k Hd) as [E1 _]. destruct (tref_model d bp bp (S k) Hd) as [E2 _].
+  rewrite E1, E2. apply tref_map_incr. exact H.
+Qed.
+
+Lemma tref_in_domain d (bp : nat -> R) k : (d = 1 \/ d = 5 \/ d = 9)%nat ->
+  -1 <= bp k <= 1 -> -1 <= tref_pts d bp k <= 1.
+Proof. intros Hd H. destruct (tref_model d bp bp k Hd) as [E1 _]. rewrite E1. apply tref_map_range. exact H. Qed.
+
+Lemma subst_trefethen_strip_partial_thm rho (bp bw : nat -> R) k : 1 < rho ->
+  strip_pts rho bp k = gstrip rho (bp k) /\ strip_wts rho bp bw k = dergstrip rho (bp k) * bw k /\
+  (forall s, -1 < s < 1 -> 1 / 100000000 < Rabs (Rabs s - 1 - 0) -> is_derive (gstrip rho) s (dergstrip rho s)) /\
+  (strip_norm rho <> 0 -> gstrip rho 1 = 1 /\ gstrip rho (-1) = -1).
+Proof.
+  intros Hr. split; [reflexivity|]. split; [reflexivity|]. split; [intros; apply gstrip_deriv; assumption|apply gstrip_ends_partial].
+Qed.
